@@ -61,6 +61,10 @@ def main():
                 else:
                     print("silent  %s (obsolete: neutralised by a later fix; must not raise an alarm)" % name)
                 continue
+            if meta.get("undecided"):
+                # a change whose effect is outside what the static rules decide (recorded as such in DESIGN §8.1): reported, not failed
+                print("%s %s (recorded as outside what the rules decide: %s)" % ("caught " if own in fired else "undecid", name, meta["undecided"][:90]))
+                continue
             if not fired:
                 print("MISSED  %s" % name); bad = 1
             elif own in fired and own not in infra:
